@@ -46,7 +46,10 @@ Inductive loc :=
 | LCatalog        (* the path of the metadata catalog object                   *)
 | LLocalFile      (* the server's file system (file:// store is always there)  *)
 | LUnregistered   (* a URL no object store is registered for                   *)
-| LMemTable.      (* an in-memory session table                                *)
+| LMemTable       (* an in-memory session table                                *)
+| LNoInsert.      (* a table whose provider refuses INSERT: the empty placeholder
+                     table, views, listing tables over single files (what
+                     register_metrics_table_for_chunks builds)                *)
 
 Inductive plan :=
 | PQuery (op : qop) (inputs : list plan)       (* inputs incl. expression subqueries *)
@@ -69,12 +72,12 @@ Inductive effect :=
    refused by the physical planner. *)
 Definition dml_write (k : dml_kind) (t : loc) : list effect :=
   match k with
-  | DInsert => match t with LUnregistered => [] | _ => [EStoreWrite t] end
+  | DInsert => match t with LUnregistered | LNoInsert => [] | _ => [EStoreWrite t] end
   | _ => []
   end.
 
 Definition copy_write (t : loc) : list effect :=
-  match t with LUnregistered => [] | _ => [EStoreWrite t] end.
+  match t with LUnregistered | LNoInsert => [] | _ => [EStoreWrite t] end.
 
 (* Running the physical plan of [p] (DataFrame::collect / execute_stream).
    EXPLAIN only plans its child; EXPLAIN ANALYZE runs it. *)
